@@ -459,7 +459,7 @@ def run(ctx):
                        "the pinset store is the in-memory datastore ipfs-cluster-service gives to raft",
                        "kill points are between FSM operations (seam 1) and between/inside commits at process level (seam 3), "
                        "not at every fsync"]
-    stages = os.environ.get("VERIF_C01_STAGES", "spec,fsm,raft,repotests").split(",")   # debugging aid
+    stages = os.environ.get("VERIF_C01_STAGES", "spec,fsm,raft,gate,repotests").split(",")   # debugging aid
     if "spec" in stages:
         spec_stage(ctx)
     if "fsm" in stages:
@@ -467,14 +467,73 @@ def run(ctx):
         validate(ctx, trace, "fsm", 0)
     if "raft" in stages:
         raft_seam(ctx)
+    if "gate" in stages:
+        gate_stage(ctx)
     if "repotests" in stages:
         repo_tests_stage(ctx)
+
+
+def gate_present(ctx):
+    fn = os.path.join(ctx.repo, "consensus", "raft", "verif_on.go")
+    return os.path.exists(fn) and "VerifGate" in open(fn).read()
+
+
+def gate_stage(ctx):
+    """commit() on the leader against a concurrent Shutdown(): the step model RaftCommitGate is checked by TLC,
+    every path through its state graph is classified by where Shutdown falls relative to the leader check and the
+    lock, and each class is forced on a real peer through the gate hook; TLC's final state is the expectation."""
+    import vcheck
+    if not (hooks_present(ctx) and gate_present(ctx)):
+        ctx.log("gate hook (consensus/raft VerifGate) absent in %s: commit-vs-shutdown schedules skipped" % ctx.repo)
+        ctx.extra["commit_gate"] = "skipped (gate hook absent in VERIF_REPO)"
+        return
+    dot = os.path.join(ctx.specdir(), "gate.dot")
+    ctx.tlc("RaftCommitGate.tla", "RaftCommitGate.cfg", workers=2, timeout=600, dump_dot=dot)
+    r = ctx.tlc("RaftCommitGate.tla", "RaftCommitGate_guard.cfg", workers=1, timeout=600, count=False, expect_violation=True)
+    if not r.violation:
+        raise vcheck.Infra("TLC no longer refutes the break-with-nil shutdown guard in RaftCommitGate")
+    g = tla.read_dot(dot)
+    tours = tla.edge_tours(g, max_len=12, rng=random.Random(ctx.seed))
+    classes = {}
+    for t in tours:
+        labs = [g.state(n)["last"] for (_, n) in t][1:]
+        fin = g.state(t[-1][1])
+        if fin["pcC"] != "done" or fin["pcS"] != "done":
+            continue
+        pos = {l: i for i, l in enumerate(labs)}
+        if pos["c.check"] > pos["s.stop"]:
+            cls = "S1"
+        elif "c.lock" in pos and pos["c.lock"] > pos["s.lock"]:
+            cls = "S2"
+        else:
+            cls = "S3"
+        classes.setdefault(cls, (labs, fin["result"], fin["committed"]))
+    if set(classes) != {"S1", "S2", "S3"}:
+        raise vcheck.Infra("the tours of RaftCommitGate do not cover the three schedule classes: %s" % sorted(classes))
+    cases = []
+    reps = 1 if ctx.quick() else 4
+    for cls in sorted(classes):
+        labs, res, com = classes[cls]
+        for kind in ("pin", "unpin"):
+            for _ in range(reps):
+                cases.append({"id": len(cases) + 1, "cls": cls, "kind": kind, "tour": labs, "result": res, "committed": com})
+    inp = os.path.join(ctx.work, "c01_gate_cases.ndjson")
+    with open(inp, "w") as f:
+        for c in cases:
+            f.write(json.dumps(c) + "\n")
+    trace = os.path.join(ctx.work, "c01_gate_trace.ndjson")
+    ctx.go_test("c17_member", run="TestCommitGate", infile=inp, timeout=900, tags="verif,verifhooks,verifgate",
+                env={"VERIF_TRACE": trace, "VERIF_PAR": 6})
+    if os.path.exists(trace) and os.path.getsize(trace) > 0:
+        validate_one(ctx, trace, "gate", 0)
+    ctx.extra["commit_gate"] = {c: classes[c][1] for c in sorted(classes)}
 
 
 def raft_seam(ctx):
     """Seam 2: real raft.Consensus peers inside real Clusters (driver shared with C17): writes at leaders and
     followers, peers shut down while entries are committed and restarted from disk (with SnapshotThreshold=1 and
     TrailingLogs=0 real raft then installs a snapshot on the restarted, non-empty replica)."""
+    import vcheck
     from props import c17
     rng = random.Random(ctx.seed + 17)
     gen_cfg = c17.write_cfg(ctx, "c01gen", 3, 2, 4 if ctx.quick() else 5, 2, 1 if ctx.quick() else 2, check=False)
@@ -501,6 +560,16 @@ def raft_seam(ctx):
         for e in extra:
             e["id"] = 2000 + len(scripts)
             scripts.append(e)
+    # commit_retries = 0 / 1 (accepted by Config.Validate) at every peer of some scripts that write at the
+    # leader and at a follower: the retry loops must still run once
+    both = [sc for sc in scripts if any(st["a"] in ("pin", "unpin") and st["at"] == "p1" for st in sc["steps"])
+            and any(st["a"] in ("pin", "unpin") and st["at"] != "p1" for st in sc["steps"])]
+    if not both:
+        raise vcheck.Infra("no seam-2 script writes at both the leader and a follower")
+    rng.shuffle(both)
+    for k, sc in enumerate(both[:2 if ctx.quick() else 12]):
+        sc["retries"] = 0 if k % 2 == 0 else 1
+    ctx.extra["raft_seam_commit_retries_0_scripts"] = len(both[:2 if ctx.quick() else 12][0::2])
     scripts += c17.goal_scripts(ctx, ["NoRestartAfterUnpin", "NoRestartAfterChurn"], (3, 2, 5, 2, 2), "C01", 1000)
     ctx.extra["raft_seam_scripts"] = len(scripts)
     c17.run_member_driver(ctx, scripts, "C01", "c01raft", 8)
@@ -511,8 +580,12 @@ def replay(ctx, path):
     d = j.get("driver") or {}
     case = j.get("case") or {}
     if d.get("pkg"):
-        ctx.go_test(d["pkg"], run=d.get("run") or None, replay=os.path.abspath(path),
-                    env={"VERIF_RESTORE_MODE": ASCODED})
+        tags = "verif"
+        if d["pkg"] == "c17_member":
+            tags += ",verifhooks" if hooks_present(ctx) else ""
+            tags += ",verifgate" if gate_present(ctx) and d.get("run") == "TestCommitGate" else ""
+        ctx.go_test(d["pkg"], run=d.get("run") or None, replay=os.path.abspath(path), tags=tags,
+                    env={"VERIF_RESTORE_MODE": ASCODED, "VERIF_PROP": "C01", "VERIF_PAR": 1})
     elif "trace_line" in case:
         print("trace-level violation; recorded event: %s" % json.dumps(case["trace_line"]))
         ctx.violation(j.get("key"), j.get("what"), case)
